@@ -50,7 +50,7 @@ func callVoid(m reflect.Value, name string, args ...reflect.Value) (panicked boo
 }
 
 // isoCombo: an Isomorphism[S, S] between two instances of the shape (two arenas with different values):
-// Forward(s, t) then Inverse(t, s), with the byte diffs of BOTH structures after each step
+// Forward(s, t) then Inverse(t, s2) into a third instance, with the byte diffs of the structures after each step
 func isoCombo(kind string, req obj, tys map[string]reflect.Type, mk func() any) combo {
 	return combo{Kind: kind, Req: req, Tys: tys, Run: func(sd *shapeDef, ar *arena) obj {
 		var m any
@@ -58,16 +58,18 @@ func isoCombo(kind string, req obj, tys map[string]reflect.Type, mk func() any) 
 		if p {
 			return obj{"panic": true}
 		}
-		ar2 := newArena(sd)
+		ar2, ar3 := newArena(sd), newArena(sd)
 		ws, s := ar.instance()
 		wt, t := ar2.instance()
+		ws2, s2 := ar3.instance()
 		mv := reflect.ValueOf(m)
-		sp, tp := reflect.NewAt(sd.T, s), reflect.NewAt(sd.T, t)
+		sp, tp, sp2 := reflect.NewAt(sd.T, s), reflect.NewAt(sd.T, t), reflect.NewAt(sd.T, s2)
 		pf := callVoid(mv, "Forward", sp, tp)
 		ds1, dt1 := diff(ar.template, ws), diff(ar2.template, wt)
-		pi := callVoid(mv, "Inverse", tp, sp)
-		ds2, dt2 := diff(ar.template, ws), diff(ar2.template, wt)
-		return obj{"panic": false, "before_t": ints(ar2.template), "pf": pf, "pi": pi,
+		// the way back goes into a third instance: its source foci must become those of the first
+		pi := callVoid(mv, "Inverse", tp, sp2)
+		ds2, dt2 := diff(ar3.template, ws2), diff(ar2.template, wt)
+		return obj{"panic": false, "before_t": ints(ar2.template), "before_s2": ints(ar3.template), "pf": pf, "pi": pi,
 			"ds1": ds1, "dt1": dt1, "ds2": ds2, "dt2": dt2}
 	}}
 }
